@@ -201,6 +201,9 @@ func runThrottle(sc *Scenario) (res Result) {
 	c := sc.Caps0()
 	input := sc.In[0]
 	in := make(chan int, c)
+	if sc.PreCancel {
+		cancel()
+	}
 	out := pipe.Throttling(ctx, in, ops, interval)
 	envStop := make(chan struct{})
 	twin := startTwin(sc, envStop)
@@ -209,6 +212,9 @@ func runThrottle(sc *Scenario) (res Result) {
 	var got []stamped
 	closedSeen := false
 	var cancelledAt time.Duration = -1
+	if sc.PreCancel {
+		cancelledAt = 0
+	}
 
 	// producer
 	go func() {
@@ -289,7 +295,7 @@ func runThrottle(sc *Scenario) (res Result) {
 	budget += (len(input)/ops + 3) * max(sc.Interval, 1)
 	limit := time.Duration(2*budget+10) * unit
 
-	if sc.T.CancelAt > 0 {
+	if sc.T.CancelAt > 0 && !sc.PreCancel {
 		select {
 		case <-done:
 		case <-time.After(time.Duration(sc.T.CancelAt) * unit):
@@ -405,6 +411,11 @@ func runGenerator(sc *Scenario) (res Result) {
 			return freq * time.Duration(sc.T.Slow[((i%len(sc.T.Slow))+len(sc.T.Slow))%len(sc.T.Slow)]) / 4
 		}
 	}
+	if sc.PreCancel {
+		// the stage is created on an already cancelled context: whatever it still delivers is a prefix, and both channels close
+		e.cancelled = true
+		e.cancel()
+	}
 	var out <-chan int
 	var exx <-chan error
 	if sc.Stage == "emit" {
@@ -494,8 +505,8 @@ func runGenerator(sc *Scenario) (res Result) {
 		budget += cp[0] + cp[1]
 	}
 	limit := time.Duration(2*budget*max(sc.Freq, 1)+10) * unit
-	cancelled := false
-	if sc.T.CancelAt > 0 {
+	cancelled := sc.PreCancel
+	if sc.T.CancelAt > 0 && !sc.PreCancel {
 		select {
 		case <-done:
 		case <-time.After(time.Duration(sc.T.CancelAt) * unit):
